@@ -168,7 +168,24 @@ def value_build(j: dict, shape: str, dt: str):
         return x if dt == 'str' else t(x)
 
     def arr(xs):
-        return np.array([uncanon(s, dt) for s in xs], dtype=t)
+        a = np.array([uncanon(s, dt) for s in xs], dtype=t)
+        # the memory layout of an array is not part of its value: a third of the arrays are handed over as non-contiguous views of
+        # the exact field dtype (a column of a table, every second element of a buffer, a reversed buffer) — content-derived choice
+        if dt != 'str' and a.ndim == 1 and len(a) >= 2:
+            import zlib
+
+            k = zlib.crc32(repr(list(xs)).encode()) % 6
+            if k == 0:
+                buf = np.zeros(2 * len(a), dtype=a.dtype)
+                buf[::2] = a
+                return buf[::2]
+            if k == 1:
+                tab = np.zeros((len(a), 3), dtype=a.dtype)
+                tab[:, 1] = a
+                return tab[:, 1]
+            if k == 2:
+                return np.ascontiguousarray(a[::-1])[::-1]
+        return a
 
     def perm(items, key):
         # insertion order of a mapping is not part of its value: build the dictionaries in a content-derived pseudo-random
@@ -434,7 +451,12 @@ def build_base(tr: dict, fieldsets: list[str]):
     t = Trajectory(n, name=b['name'], fieldsets=fieldsets or None)
     for j, (fname, f) in enumerate(FieldSet.from_registry('base').items()):
         if Dimension.POINT in f.dimensions:
-            setattr(t, fname, (np.arange(n, dtype=float) * 1.25 + b['seed'] + j * 0.5))
+            v_ = np.arange(n, dtype=float) * 1.25 + b['seed'] + j * 0.5
+            if n >= 2 and (b['seed'] + j) % 5 == 0:
+                tab_ = np.zeros((n, 2))            # (a column of a table: same values, non-contiguous)
+                tab_[:, 0] = v_
+                v_ = tab_[:, 0]
+            setattr(t, fname, v_)
         elif fname in ('flight_id', 'name'):
             continue
         elif f.required:
